@@ -288,6 +288,15 @@ class Graph:
                 self._get_build_result().scope.var.name_of,
                 self._get_build_result().scope.node.name_of,
             )
+            if best_effort is not None:
+                # Values introduced by the adaptation were not known when the scope was named.
+                # Claim their names now, so that neither an existing nor a later name can clash.
+                var_space = self._get_build_result().scope.var
+                original = {name for proto in protos for name in proto.output}
+                for proto in best_effort:
+                    for name in proto.output:
+                        if name and name not in original and name not in var_space.reserved:
+                            var_space.reserve(name)
             consistent_nodes[node] = (
                 tuple(best_effort) if best_effort is not None else protos
             )
